@@ -192,6 +192,26 @@ def C06_3(ctx, facts):
                             adv = True
             ctx.check(adv, "TokenMap::insert|counter-advances", "the counter is advanced (checked_add) when a token is minted",
                       "the counter is not advanced in the minting closure", g.where())
+    # what is mapped to a token is the pool key itself: equality of keys (not of some digest of them) decides whether two
+    # requests share a token.  On the way into TokenMap::insert the key passes only through clones / borrows.
+    import re as _re
+    isites = facts.call_sites_of("client::pool::key::TokenMap::insert")
+    ctx.floor("TokenMap::insert|call-sites", len(isites), 1, "call sites of TokenMap::insert")
+    for c in isites:
+        u = facts.unit(c.fn, expand=True) if "{closure" not in c.fn.nkey else c.fn
+        cs = [x for x in u.calls("client::pool::key::TokenMap::insert")] or [c]
+        for x in cs:
+            rr = x.fn.roots(x.args[1])
+            odd = sorted({norm(r.site.name) for r in rr if r.kind == "call" and not _re.search(r"Clone.*::clone$|Borrow.*::borrow$|AsRef.*::as_ref$|ToOwned.*::to_owned$|Deref.*::deref$|Into.*::into$|From.*::from$", norm(r.site.name))})
+            from_key = any(r.kind == "arg" and _re.search(r"(^|\.)key$", r.desc) for r in rr)
+            ctx.check(from_key and not odd, "TokenMap::insert|key-itself|%s" % x.fn.nkey.replace("client::pool::", ""),
+                      "the value mapped to a token is the caller's key itself (clones only): distinct keys can never share a token",
+                      "the value mapped to a token is computed from the key through %s (roots %s): two different origins with the same digest would share one token, idle list and waiter queue"
+                      % (odd, sorted(map(repr, sig(rr)))[:5]), x.where())
+    padt = facts.adt("client::pool::Pool")
+    kf = [fl["ty"] for fl in padt["variants"][0]["fields"] if "TokenMap<" in fl["ty"]] if padt else []
+    ctx.check(len(kf) == 1 and _re.search(r"TokenMap<K>", kf[0]) is not None, "Pool|token-map-keyed-by-K", "Pool's token map is keyed by the pool's key type K",
+              "Pool's token map is declared as %s" % kf)
     # zero token is None
     z = facts.fn("client::pool::key::Token::zero")
     for (b, i, s) in z.aggregates(TOKEN_TY):
